@@ -120,8 +120,11 @@ def run_playback(data, src_existing=None, logdir=None):
            data["playback_test_name"], "--nocapture"]
     log = os.path.join(logdir or os.path.join(vlib.WORK, "replay"), "playback-run-%s.log" % data["obligation"])
     os.makedirs(os.path.dirname(log), exist_ok=True)
-    rc, text, wall = vlib.run(cmd, cwd=src, timeout=1200, out=log,
-                              env={"CARGO_TARGET_DIR": vlib.kani_target_dir() + "-playback"})
+    pbdir = vlib.kani_target_dir() + "-playback"
+    os.makedirs(pbdir, exist_ok=True)
+    with vlib.target_lock(pbdir):
+        vlib.run(["cargo", "clean", "--offline", "-p", "svgbob"], cwd=src, timeout=300, env={"CARGO_TARGET_DIR": pbdir})
+        rc, text, wall = vlib.run(cmd, cwd=src, timeout=1200, out=log, env={"CARGO_TARGET_DIR": pbdir})
     m = re.search(r"test result: (\w+)\. (\d+) passed; (\d+) failed", text)
     reproduced = bool(m and int(m.group(3)) >= 1)
     return reproduced, text
@@ -152,11 +155,12 @@ def run_native_test(test, src=None, tier="quick", log=None, extra_env=None):
            "VERIF_TIER": tier}
     if extra_env:
         env.update(extra_env)
-    if fresh:
-        vlib.run(["cargo", "clean", "--offline", "-p", "svgbob"], cwd=src, env=env, timeout=300)
     cmd = ["cargo", "test", "--offline", "-q", "-p", "svgbob", "--lib", "--", test, "--exact",
            "--nocapture", "--test-threads", "1"]
-    rc, text, wall = vlib.run(cmd, cwd=src, env=env, timeout=1800, out=log)
+    with vlib.target_lock(vlib.native_target_dir()):
+        # always rebuild the crate from this snapshot: another check may have built a different tree
+        vlib.run(["cargo", "clean", "--offline", "-p", "svgbob"], cwd=src, env=env, timeout=300)
+        rc, text, wall = vlib.run(cmd, cwd=src, env=env, timeout=1800, out=log)
     m = re.search(r"test result: (\w+)\. (\d+) passed; (\d+) failed", text)
     if not m or (int(m.group(2)) + int(m.group(3))) == 0:
         return None, text        # did not run
